@@ -37,7 +37,7 @@ TOL = 2e-5
 
 
 def gen_cases(seed, tier):
-    cases = sampling.gen_cases(seed, tier, 1, 340, 12000)
+    cases = sampling.gen_cases(seed, tier, 1, 340, 12000, scales=True)
     rng = np.random.default_rng([seed, 101])
     for c in cases:
         for call in c["calls"]:
@@ -61,7 +61,7 @@ def judge_obs(o, node, bnode, env, k, info, res):
     call = o.call
     mech = {"lvl": call["lvl"], "target": call["target"], "fn": call["fn"], "by": call["by"],
             "root": info["kind"], "dep": bool(info["dep"]), "k": _kcls(k), "n1": call.get("n") == 1,
-            "filter": "filter" in call}
+            "filter": "filter" in call, "scale": info.get("scale", 1.0)}
     if o.budget:
         res["viol"].append(viol("no_bounded_progress", o.budget, **mech))
         return
